@@ -20,7 +20,7 @@
 #define MAXTOK 64
 
 /* ------------------------------------------------------------------ key pool */
-typedef struct { Janet k; uint32_t hash; int rank; } PoolKey;
+typedef struct { Janet k; uint32_t hash; int rank; int kind; } PoolKey;
 static PoolKey *pool; static int npool;
 /* reverse map bits -> index (own open hash map; independent of janet tables) */
 static uint64_t *rk; static int *rv; static size_t rcap;
@@ -58,14 +58,15 @@ static void build_pool(int per_home) {
     int want = nh * per_home + 2;
     pool = calloc(want, sizeof(PoolKey));
     /* two booleans: hash 0 and 1, tiny hashes */
-    pool[npool++].k = janet_wrap_true();
-    pool[npool++].k = janet_wrap_false();
+    pool[npool].kind = 6; pool[npool++].k = janet_wrap_true();
+    pool[npool].kind = 6; pool[npool++].k = janet_wrap_false();
     int filled = 0;
     for (long i = 0; filled < nh && i < 40000000; i++) {
         Janet c = mk_candidate(i);
         uint32_t h = (uint32_t) janet_hash(c);
         for (int j = 0; j < nh; j++) {
             if ((h & 1023u) == homes[j] && cnt[j] < per_home) {
+                pool[npool].kind = (int)(i % 6);   /* 0,1 number  2 string  3 keyword  4 symbol  5 tuple */
                 pool[npool++].k = c;
                 janet_gcroot(c);
                 if (++cnt[j] == per_home) filled++;
@@ -108,6 +109,10 @@ static uint64_t valcode(Janet x) {
 static uint64_t keycode(Janet x) {
     if (janet_checktype(x, JANET_NIL)) return 0;
     int i = rev_get(bits_of(x));
+    if (i < 0 && (janet_checktype(x, JANET_TUPLE) || janet_checktype(x, JANET_STRING))) {
+        /* an equal but not identical key (freeze rebuilds tuple keys): keys are compared with janet_equals */
+        for (int j = 0; j < npool; j++) if (janet_equals(pool[j].k, x)) { i = j; break; }
+    }
     return i < 0 ? 0xFFFFF : (uint64_t)(i + 1);
 }
 static void pr_val(char *o, Janet x) {
@@ -239,13 +244,15 @@ int main(int argc, char **argv) {
     janet_init();
     core_env = janet_core_env(NULL);
     janet_gcroot(janet_wrap_table(core_env));
-    int per_home = 40;
+    int per_home = 40, kinds = 0;
     for (int i = 1; i < argc; i++) {
+        if (!strcmp(argv[i], "--kinds")) kinds = 1;
         if (!strcmp(argv[i], "--full")) full_dump = 1;
         else if (!strncmp(argv[i], "--per-home=", 11)) per_home = atoi(argv[i] + 11);
         else if (!strcmp(argv[i], "--lb")) setvbuf(stdout, NULL, _IOLBF, 0);   /* line buffered: nothing is lost on a crash */
     }
     build_pool(per_home);
+    if (kinds) { for (int i = 0; i < npool; i++) printf("kind %d %d\n", i, pool[i].kind); return 0; }
     for (int i = 0; i < npool; i++) printf("key %d %u %d\n", i, pool[i].hash, pool[i].rank);
     printf("keys-end %d\n", npool);
     reset_regs();
@@ -270,6 +277,11 @@ int main(int argc, char **argv) {
         if (!strcmp(op, "hist")) { fflush(stdout); reset_regs(); printf("ok"); }
         /* ---------------- dictionaries (first argument is T<i> or S<i>) */
         else if (!strcmp(op, "tnew") && t0 >= 0 && na == 2) { if (call("table/new", 1, a + 1, &r)) { set_T(t0, janet_unwrap_table(r)); printf("ok"); } else printf("err"); }
+        else if (!strcmp(op, "tnewweak") && t0 >= 0 && na == 3) { /* tnewweak T n 1|2|3: table/weak-keys, weak-values, weak */
+            const char *fn = !strcmp(tok[3], "1") ? "table/weak-keys" : !strcmp(tok[3], "2") ? "table/weak-values" : "table/weak";
+            if (call(fn, 1, a + 1, &r)) { set_T(t0, janet_unwrap_table(r)); printf("ok"); } else printf("err"); }
+        else if (!strcmp(op, "freeze") && t0 >= 0 && na == 2 && reg(tok[2], 'S', NS) >= 0) { if (call("freeze", 1, a, &r) && janet_checktype(r, JANET_STRUCT)) { set_S(reg(tok[2], 'S', NS), janet_unwrap_struct(r)); printf("ok"); } else printf("err"); }
+        else if (!strcmp(op, "thaw") && t0 >= 0 && na == 2 && reg(tok[2], 'T', NT) >= 0) { if (call("thaw", 1, a, &r) && janet_checktype(r, JANET_TABLE)) { set_T(reg(tok[2], 'T', NT), janet_unwrap_table(r)); printf("ok"); } else printf("err"); }
         else if (!strcmp(op, "put") && na == 3) { TRY(janet_put(a[0], a[1], a[2])); printf(ok ? "ok" : "err"); }
         else if (!strcmp(op, "get") && na == 2) { TRY(r = janet_get(a[0], a[1])); if (ok) { pr_res(vb, r); printf("%s", vb); } else printf("err"); }
         else if (!strcmp(op, "in") && na == 2) { TRY(r = janet_in(a[0], a[1])); if (ok) { pr_res(vb, r); printf("%s", vb); } else printf("err"); }
